@@ -40,6 +40,7 @@ import (
 
 	"github.com/ipfs/go-graphsync"
 
+	"verifharness/quiesce"
 	"verifharness/reg"
 	tn "verifharness/twonode"
 )
@@ -385,7 +386,7 @@ func runOnce(w *tn.World, q *tn.Query, loc, rem []int, p Params, withPause bool)
 //	                       requestor performed successfully before going online, and the first N
 //	                       links of the responder's own traversal (N = number of those loads = the
 //	                       skip count) reach beyond the requestor's position
-func c02Class(q *tn.Query, ref []tn.RefStep, have map[int]bool, rem map[int]bool, from int) string {
+func c02Class(q *tn.Query, ref []tn.RefStep, have map[int]bool, rem map[int]bool, from int) (string, map[int]bool) {
 	// position of the go-online: first reference step at or after `from` whose block is not held
 	pos := -1
 	n := 0 // successful loads before it
@@ -402,10 +403,10 @@ func c02Class(q *tn.Query, ref []tn.RefStep, have map[int]bool, rem map[int]bool
 		}
 	}
 	if pos < 0 || n == 0 {
-		return ""
+		return "", nil
 	}
 	if !rem[q.LT[0].Block] {
-		return "resume-root-not-found-abort"
+		return "resume-root-not-found-abort", nil
 	}
 	lacks := false
 	for i := 0; i < pos; i++ {
@@ -414,18 +415,32 @@ func c02Class(q *tn.Query, ref []tn.RefStep, have map[int]bool, rem map[int]bool
 		}
 	}
 	if !lacks {
-		return ""
+		return "", nil
 	}
-	nodes, _ := q.ResponderStream(rem)
+	// the blocks the requestor still needs that fall into the responder's skip window: only a failure
+	// that names one of them is the documented finding
+	nodes, present := q.ResponderStream(rem)
+	win := map[int]bool{}
+	for i, nd := range nodes {
+		if i >= n {
+			break
+		}
+		if nd >= ref[pos].Node && present[i] {
+			win[q.LT[nd].Block] = true
+		}
+	}
+	if len(win) > 0 {
+		return "resume-skip-prefix-mismatch", win
+	}
 	for i, nd := range nodes {
 		if i >= n {
 			break
 		}
 		if nd >= ref[pos].Node {
-			return "resume-skip-prefix-mismatch"
+			return "resume-skip-prefix-mismatch", win
 		}
 	}
-	return ""
+	return "", nil
 }
 
 func copySet(m map[int]bool) map[int]bool {
@@ -439,9 +454,13 @@ func copySet(m map[int]bool) map[int]bool {
 func judge(out *reg.Out, q *tn.Query, loc, rem []int, p Params, base, pr *runOut) {
 	locS, remS := tn.SetOf(loc), tn.SetOf(rem)
 	ref := q.RefTrav(locS, remS)
-	// ---- known-finding input classes inherited from C02
-	known := c02Class(q, ref, copySet(locS), remS, 0)
-	if known == "" && p.Side == 0 && pr.pauses > 0 {
+	// ---- C02's known-finding input classes.  `knownBase`: the UNINTERRUPTED exchange is itself in one of
+	// them (its result is not the reference result: C02's business, the comparison says nothing about
+	// pauses -> no verdict).  `knownResume`: only the request sent on resume is (C06's inherited class).
+	knownBase, _ := c02Class(q, ref, copySet(locS), remS, 0)
+	knownResume := ""
+	var window map[int]bool
+	if knownBase == "" && p.Side == 0 && pr.pauses > 0 {
 		// the resumed request goes online again after the pause point: the k-th successful load
 		// blocks loaded when each pause took effect: counted from the paused run's own event log (for
 		// mech=step the header's k is a scheduler step, not a block index)
@@ -474,49 +493,41 @@ func judge(out *reg.Out, q *tn.Query, loc, rem []int, p Params, base, pr *runOut
 					have[q.LT[ref[i].Node].Block] = true
 				}
 			}
-			if c := c02Class(q, ref, have, remS, from); c != "" {
-				known = c
+			if c, w := c02Class(q, ref, have, remS, from); c != "" {
+				knownResume, window = c, w
 				break
 			}
 		}
 	}
-	cls := func(c string) string {
-		if known != "" {
-			return known
-		}
-		return c
+	if knownBase != "" {
+		out.Cov("c02class.base." + knownBase)
 	}
-	if known != "" {
-		out.Cov("c02class." + known)
+	if knownResume != "" {
+		out.Cov("c02class." + knownResume)
 	}
+	// ---- the uninterrupted run: a failure here is never a known finding of C06
 	if base.hang != "" {
-		out.Fail(cls("baseline-hang"), "uninterrupted exchange: %s", base.hang)
+		out.Fail("harness-baseline-hang", "uninterrupted exchange: %s", base.hang)
 		return
 	}
-	if len(base.res.Hard) > 0 && ref[0].Avail {
-		// the comparison is meaningless if the uninterrupted exchange with a cooperative responder is
-		// itself rejected by the requestor's verification (outside C02's known input classes)
-		out.Fail(cls("baseline-rejected"), "uninterrupted exchange failed verification: %s", strings.Join(base.res.Hard, " "))
+	if knownBase == "resume-skip-prefix-mismatch" {
+		// the uninterrupted exchange itself suffers C02's skip-prefix mismatch; the resumed request asks
+		// with another skip count and may or may not: no verdict about pauses from this input
+		out.Cov("verdict.withheld.c02-input-class")
+		if pr.hang != "" && !pr.spurious {
+			out.Fail("hang", "paused exchange (%d pause(s) took effect, %d resume(s)): %s", pr.pauses, pr.resumes, pr.hang)
+		}
+		return
+	}
+	if len(base.res.Hard) > 0 && ref[0].Avail && knownBase == "" {
+		// the uninterrupted exchange with a cooperative responder is itself rejected by the requestor's
+		// verification, outside C02's known input classes: impossible on the unchanged tree
+		out.Fail("harness-baseline-rejected", "uninterrupted exchange failed verification: %s", strings.Join(base.res.Hard, " "))
 		return
 	}
 	// ---- requestor-side classes decided from the paused run's own event log
-	stale, busy := staleAfterReopen(pr), resumeWhileActive(pr)
-	// precedence: what the paused run's own event log shows (a stale message reached the reopened
-	// loader / the resumed request overtook the cancel) before the input class inherited from C02
-	cls2 := func(c string) string {
-		if p.Side == 0 && stale {
-			return "stale-response-after-resume"
-		}
-		if p.Side == 0 && busy {
-			// repaired in /repo 0bfe189 (known_findings.json: fixed): not a known class any more,
-			// a failure of this shape is a VIOLATION
-			return "resume-overtakes-cancel"
-		}
-		if known != "" {
-			return known
-		}
-		return c
-	}
+	staleSeq, busy := staleAfterReopen(pr), resumeWhileActive(pr)
+	stale := staleSeq >= 0
 	if stale {
 		out.Cov("req.stale-after-reopen")
 	}
@@ -528,7 +539,14 @@ func judge(out *reg.Out, q *tn.Query, loc, rem []int, p Params, base, pr *runOut
 		return
 	}
 	if pr.hang != "" {
-		out.Fail(cls2("hang"), "paused exchange (%d pause(s) took effect, %d resume(s)): %s", pr.pauses, pr.resumes, pr.hang)
+		// a hang is never a known finding: `stale-response-after-resume` and `resume-skip-prefix-mismatch`
+		// document wrong RESULTS of a request that ends; `resume-overtakes-cancel` (the only documented
+		// hang) is repaired in /repo 0bfe189 — a recurrence is a VIOLATION under its own name
+		c := "hang"
+		if p.Side == 0 && busy {
+			c = "resume-overtakes-cancel"
+		}
+		out.Fail(c, "paused exchange (%d pause(s) took effect, %d resume(s)): %s", pr.pauses, pr.resumes, pr.hang)
 		return
 	}
 	if !ref[0].Avail {
@@ -537,10 +555,26 @@ func judge(out *reg.Out, q *tn.Query, loc, rem []int, p Params, base, pr *runOut
 		out.Cov("root-unavailable")
 		base.res.Missing, pr.res.Missing, base.res.Hard, pr.res.Hard = nil, nil, nil, nil
 	}
+	// attribution of a result difference to a known finding (anything else stays `result-differs`)
+	attribute := func() string {
+		if p.Side != 0 {
+			return "result-differs"
+		}
+		if stale && staleExplains(base, pr, staleSeq) {
+			return "stale-response-after-resume"
+		}
+		if knownResume == "resume-skip-prefix-mismatch" && windowExplains(base.res, pr.res, window) {
+			return knownResume
+		}
+		if knownBase != "" {
+			return knownBase // resume-root-not-found-abort: not a known class of C06, a VIOLATION under its own name
+		}
+		return "result-differs"
+	}
 	if d := base.res.Diff(pr.res); d != "" {
-		out.Fail(cls2("result-differs"), "uninterrupted vs paused+resumed (%d pause(s), %d resume(s)): %s", pr.pauses, pr.resumes, d)
+		out.Fail(attribute(), "uninterrupted vs paused+resumed (%d pause(s), %d resume(s)): %s", pr.pauses, pr.resumes, d)
 	} else if tn.FmtInts(base.store) != tn.FmtInts(pr.store) {
-		out.Fail(cls2("result-differs"), "stored blocks differ: uninterrupted [%s] vs paused+resumed [%s]", tn.FmtInts(base.store), tn.FmtInts(pr.store))
+		out.Fail("result-differs", "stored blocks differ: uninterrupted [%s] vs paused+resumed [%s]", tn.FmtInts(base.store), tn.FmtInts(pr.store))
 	}
 	for _, e := range pr.unpauseErrs {
 		out.Cov("api-error")
@@ -591,7 +625,91 @@ func quiet(out *reg.Out, pr *runOut) {
 // ID, the requestor cannot tell the two incarnations apart.  The loader goes online again at the
 // first local miss after Unpause (executor.traverse, requestSent = false): in the event log that is
 // the first failed store read of the requestor after the unpause call.
-func staleAfterReopen(pr *runOut) bool {
+// hookSeqs: the incoming-block hook calls of a run, in order (block, seq)
+func hookSeqs(ro *runOut) (cids []int, seqs []int) {
+	ro.sim.Locked(func() {
+		for _, e := range ro.sim.Log {
+			if e.Kind == tn.EvReqHook {
+				cids = append(cids, e.Cid)
+				seqs = append(seqs, e.Seq)
+			}
+		}
+	})
+	return
+}
+
+// staleExplains: the difference between the two runs can be the documented effect of the stale
+// message ingested at `staleSeq` — every load of the paused run BEFORE that moment is a load of the
+// uninterrupted run at the same position (the first deviating load is at or after the stale ingest),
+// and the paused run reports an additional verification / missing-block error and delivers a
+// sub-sequence of the uninterrupted run's nodes (never other data).
+func staleExplains(base, pr *runOut, staleSeq int) bool {
+	bc, _ := hookSeqs(base)
+	pc, ps := hookSeqs(pr)
+	for i := range pc {
+		if ps[i] >= staleSeq {
+			break
+		}
+		if i >= len(bc) || bc[i] != pc[i] {
+			return false
+		}
+	}
+	// what the paused run delivered is part of what the uninterrupted run delivered, in the same order
+	// (a stale item makes the loader report a link missing / reject the response: subtrees are skipped
+	// or the request is cut short; it never delivers other data)
+	j := 0
+	for _, n := range pr.res.Nodes {
+		for j < len(base.res.Nodes) && base.res.Nodes[j] != n {
+			j++
+		}
+		if j == len(base.res.Nodes) {
+			return false
+		}
+		j++
+	}
+	return len(newErrs(base.res, pr.res)) > 0
+}
+
+// newErrs: missing-block / verification errors of the paused run that the uninterrupted run does not have
+func newErrs(base, pr tn.Result) []string {
+	have := map[string]int{}
+	for _, e := range append(append([]string{}, base.Missing...), base.Hard...) {
+		have[e]++
+	}
+	var out []string
+	for _, e := range append(append([]string{}, pr.Missing...), pr.Hard...) {
+		if have[e] > 0 {
+			have[e]--
+			continue
+		}
+		out = append(out, e)
+	}
+	return out
+}
+
+// windowExplains: the paused run delivered a prefix-consistent part of the uninterrupted result and
+// its additional errors name a block of the skip window (present at the responder, not sent because
+// of do-not-send-first-blocks, still needed by the requestor)
+func windowExplains(base, pr tn.Result, window map[int]bool) bool {
+	ne := newErrs(base, pr)
+	if len(ne) == 0 {
+		return false
+	}
+	hit := false
+	for _, e := range ne {
+		f := strings.Split(e, ":")
+		if len(f) < 2 {
+			continue
+		}
+		if b, err := strconv.Atoi(f[1]); err == nil && window[b] {
+			hit = true
+		}
+	}
+	return hit
+}
+
+// staleAfterReopen: sequence number of the first delivery of a stale message to the re-opened loader, -1 if none
+func staleAfterReopen(pr *runOut) int {
 	s := pr.sim
 	var log []tn.Event
 	s.Locked(func() { log = append(log, s.Log...) })
@@ -620,11 +738,11 @@ func staleAfterReopen(pr *runOut) bool {
 		}
 		for _, e := range log {
 			if e.Kind == tn.EvDeliver && e.Pkt.Dir == 1 && e.Seq > rs && e.Pkt.SentSeq < rcv && hasItems(e.Pkt) {
-				return true
+				return e.Seq
 			}
 		}
 	}
-	return false
+	return -1
 }
 
 func hasItems(p *tn.Packet) bool {
@@ -661,10 +779,15 @@ func Run(cases []reg.Case, out *reg.Out) {
 	tn.QuietLogs()
 	for _, c := range cases {
 		out.BeginCase(c)
-		wd := time.AfterFunc(120*time.Second, func() {
-			fmt.Fprintf(os.Stdout, "\n#oracle case=%s FAIL class=hang watchdog: the case did not finish within 120 s\n", c.ID)
-			os.Exit(3)
-		})
+		wd := quiesce.NewWatch(5*time.Minute, 30*time.Second, time.Hour,
+			func(d string) {
+				fmt.Fprintf(os.Stdout, "\n#oracle case=%s FAIL class=hang watchdog: %s\n", c.ID, d)
+				os.Exit(3)
+			},
+			func(d string) {
+				fmt.Fprintf(os.Stdout, "\n#oracle case=%s FAIL class=harness-timeout watchdog: %s\n", c.ID, d)
+				os.Exit(3)
+			})
 		runCase(c, out)
 		wd.Stop()
 		out.W.Flush()
